@@ -470,88 +470,47 @@ def rule_archive_writes_surface(ctx, p, cfg, rid="R13"):
         r.ok("inventory", detail="buffering writers constructed in the roller modules: %d" % n)
 
 
-def rule_move_file(ctx, p, cfg, rid="R5"):
-    with ctx.rule(rid, "move_file contract", cfg) as r:
-        ro = roles(p)
-        m = p.fn_threaded(ro["move_file"].path)     # `let failed = match rename(..) { Ok => false, Err(e) => e.kind() != NotFound }; if !failed { return Ok(()) }` is the same match
-        rns = [c for c in m.calls("std::fs::rename")]
-        firsts = [c for c in rns if deep_strip(c.arg(0)) == ("param", 1)]
-        if len(firsts) != 1:
-            raise AnchorMissing("%s: expected exactly one fs::rename of the source, found %d" % (m.path, len(firsts)))
-        rn = firsts[0]
-        r.require(deep_strip(rn.arg(0)) == ("param", 1) and deep_strip(rn.arg(1)) == ("param", 2), "rename-src-dst", fn=m, site=rn.at, detail="rename(%s, %s)" % (show(rn.arg(0)), show(rn.arg(1))))
-        for c in m.calls():
-            if c.callee in ("std::fs::copy", "std::fs::remove_file"):
-                r.require(m.dominates(rn.block, c.block), "rename-first:%s" % c.callee, fn=m, detail="rename is attempted before %s" % c.callee)
-        sw = None
-        for blk in m.blocks:
-            if blk["term"]["k"] == "switch" and blk["id"] in m.reachable_blocks():
-                si = SwitchInfo(m, blk["id"])
-                d = strip(si.discr)
-                if d[0] == "discr" and strip(d[1])[0] == "call" and strip(d[1])[1] == "std::fs::rename":
-                    sw = si
-        if sw is None:
-            raise ShapeUnrecognised("no match on rename's Result in move_file")
-        cp = m.calls("std::fs::copy")
-        r.require(len(cp) == 1, "one-copy", fn=m, detail="fs::copy sites: %d" % len(cp))
-        okt, ert = sw.target_of("Ok"), sw.target_of("Err")
-        okr = m.reach(okt, include_src=True) - m.reach(ert, include_src=True)
-        rets_ok = [e for b, e in q.ret_assignments(m) if b in okr or b == okt]
-        r.require(not any(c.block in okr for c in cp) and (not rets_ok or all(q.classify_ret(e) == "ok" for e in rets_ok)), "ok-means-done", fn=m, detail="rename Ok => return Ok(()) without copying")
-        # NotFound tolerated
-        nf_sw = None
-        for blk in m.blocks:
-            if blk["term"]["k"] == "switch" and blk["id"] in m.reach(ert, include_src=True):
-                si = SwitchInfo(m, blk["id"])
-                nf = cmp_nf(si.discr, True)
-                if nf and nf[0] in ("Eq", "Ne") and any(x[0] == "agg" and x[2] == "NotFound" or (x[0] == "const" and x[2] == "NotFound") for y in (nf[1], nf[2]) for x in walk(y)) \
-                        and any(x[0] == "call" and x[1] == "std::io::error::Error::kind" for y in (nf[1], nf[2]) for x in walk(y)):
-                    nf_sw = si
-                    nf_eq = nf[0] == "Eq"
-        r.require(nf_sw is not None, "notfound-tested", fn=m, detail="the rename error kind is compared with NotFound")
-        if nf_sw and cp:
-            tt, ft = nf_sw.target_of(nf_eq), nf_sw.target_of(not nf_eq)     # tt: the kind is NotFound
-            r.require(cp[0].block not in m.reach(tt, include_src=True) or (cp[0].block in m.reach(ft, include_src=True) and m.dominates(ft, cp[0].block)), "notfound-tolerated", fn=m,
-                      detail="NotFound => Ok without copy (missing intermediate archives are fine)")
-            tr = [e for b, e in q.ret_assignments(m) if b in m.reach(tt, include_src=True) and b not in m.reach(ft, include_src=True)]
-            r.require(cp[0].block in m.reach(ft, include_src=True), "other-errors-fall-back-to-copy", fn=m, detail="any other rename error falls back to copy")
-        # a move: on every success path the source is gone from its old name - renamed, found missing, or removed after the copy
-        gone = {x.block for x in m.calls("std::fs::remove_file") if deep_strip(x.arg(0)) == ("param", 1)}
-        for k in m.calls(lambda n: n in ("core::result::Result::<T, E>::and_then", "core::result::Result::<T, E>::map")):
-            # copy(..).and_then(|_| remove_file(src)): the removal runs inside the combinator, on the copy's success
-            for y in walk(k.arg(1)):
-                if y[0] == "closure" and y[1] in p.fns and p.fns[y[1]].calls("std::fs::remove_file"):
-                    gone.add(k.block)
-        okrets = {b for b, e in q.ret_assignments(m) if q.classify_ret(e) != "err" and not q.is_from_residual(e)}
-        if nf_sw is not None:
-            fb = nf_sw.target_of(not nf_eq)       # the rename failed for another reason: the fallback starts here
-            left = q.skipping_paths(m, fb, gone, okrets) if fb is not None else okrets
-            r.require(not left, "source-gone-on-every-success-path", fn=m, detail="from the fallback every non-error return has passed remove_file(src)",
-                      fail_detail="move_file can report success (bb%s) with the source still in place: the fallback copies it and never removes it, so the 'moved' file is still the active log and the next record is appended to the old content" % sorted(left))
-        if cp:
-            c = cp[0]
-            r.require(deep_strip(c.arg(0)) == ("param", 1) and deep_strip(c.arg(1)) == ("param", 2), "copy-src-dst", fn=m, site=c.at, detail="copy(src, dst)")
-            # remove only on success: remove_file(src) inside the closure handed to and_then on the copy's result, or on its Ok edge
-            rm = list(m.calls("std::fs::remove_file")) + [x for x in p.all_calls("std::fs::remove_file") if x.fn.d.get("closure_of") == m.path]
-            r.require(len(rm) == 1, "one-remove", fn=m, detail="remove_file sites in move_file: %d" % len(rm))
-            if rm:
-                x = rm[0]
-                if x.fn.path == m.path:
-                    conds = m.conditions(x.block)
-                    ok = any(strip(si.discr)[0] == "discr" and any(y[0] == "call" and y[1] == "std::fs::copy" for y in walk(si.discr)) and {si.label(v) for v, _ in al} <= {"Ok", "Continue"} for sb, si, al in conds)
-                    src_ok = deep_strip(x.arg(0)) == ("param", 1)
-                else:
-                    at = [k for k in m.calls(lambda n: n in ("core::result::Result::<T, E>::and_then", "core::result::Result::<T, E>::map"))
-                          if strip(k.arg(0))[0] == "call" and strip(k.arg(0))[1] == "std::fs::copy" and any(y[0] == "closure" and y[1] == x.fn.path for y in walk(k.arg(1)))]
-                    ok = bool(at)
-                    # closure captures &src
-                    clo = [y for k in at for y in walk(k.arg(1)) if y[0] == "closure"]
-                    src_ok = bool(clo) and any(deep_strip(cx) == ("param", 1) for cx in clo[0][2])
-                    ret = m.local_expr(0)
-                    ok = ok and any(y[0] == "call" and y[1].endswith("and_then") for y in walk(ret))
-                r.require(ok, "remove-only-after-successful-copy", fn=m, site=x.at, detail="remove_file runs only on the copy's success edge and its result is returned")
-                r.require(src_ok, "removes-the-source", fn=m, site=x.at, detail="the removed file is the source")
+def move_file_contract_holds(p):
+    """the table of rule_move_file, as a premise for other rules"""
+    from rules import movewalk
+    try:
+        rows = movewalk.evaluate(p, p.fn(roles(p)["move_file"].path))
+    except Exception:
+        return False
+    return all((tr, res) == movewalk.expected(*k) for k, (tr, res) in rows.items())
 
+
+def rule_move_file(ctx, p, cfg, rid="R5"):
+    """move_file(src, dst) as a table over the outcomes of the file-system calls it can make (rules/movewalk.py): rename first;
+    done when it succeeds or the source does not exist; otherwise copy src to dst and, only when the copy succeeded, remove
+    src; the first failure of the fallback is what is returned."""
+    with ctx.rule(rid, "move_file contract", cfg) as r:
+        from rules import movewalk
+        ro = roles(p)
+        m = p.fn(ro["move_file"].path)
+        try:
+            rows = movewalk.evaluate(p, m)
+        except movewalk.Giveup as e:
+            raise ShapeUnrecognised("move_file: %s" % e)
+
+        def say(tr, res):
+            calls = ", ".join("%s(%s)" % (w, ", ".join(str(x) for x in a)) for w, a in tr) or "no file-system call"
+            return "%s -> %s" % (calls, res if isinstance(res, str) else ("Err of %s" % res[1] if res else "?"))
+        WHY = {
+            "Ok": "a rename that succeeded is the whole move",
+            "NotFound": "a source that does not exist is not an error (an empty slot of the window): nothing is copied or removed",
+            "Other": "any other rename error falls back to copy-then-remove: the source is removed only after the copy succeeded, and the first failure is returned",
+        }
+        for (rn, cp, rm), (tr, res) in sorted(rows.items()):
+            if rn != "Other" and (cp, rm) != ("Ok", "Ok"):
+                continue        # copy / remove are not reached on these rows: one row per rename outcome is enough
+            if rn == "Other" and cp == "Err" and rm == "Err":
+                continue
+            wt, wres = movewalk.expected(rn, cp, rm)
+            key = "rename=%s" % rn + ("" if rn != "Other" else ",copy=%s%s" % (cp, "" if cp == "Err" else ",remove=%s" % rm))
+            r.require(tr == wt and res == wres, "row:%s" % key, fn=m, detail=say(tr, res),
+                      fail_detail="with %s move_file does: %s; the contract is: %s (%s)" % (key, say(tr, res), say(wt, wres), WHY[rn]))
+        r.floor("rows", len(rows), 12)
 
 
 def rule_one_rotation_at_a_time(ctx, p, cfg, rid="R14"):
